@@ -28,6 +28,8 @@ pub struct GenProject {
     pub bom_files: usize,
     /// templates that received tuple / anonymous-component statements
     pub sugared_defs: usize,
+    /// templates that instantiate themselves
+    pub recursive_templates: usize,
 }
 
 #[derive(Clone, Copy, Debug)]
@@ -217,6 +219,43 @@ fn add_sugar(d: &mut Def, ids: &mut Ids, t: &mut Tape, templates: &[TemplateSig]
     added
 }
 
+/// Append `component zrec = T(p - 1, 1, ..); zrec.in <== 1; ...` (inside `if (p > 0) { .. }` when T has a parameter).
+fn add_self_instance(d: &mut Def, ids: &mut Ids, sig: &TemplateSig) {
+    let first = d.params.first().cloned();
+    let Stmt::Block { stmts, .. } = &mut d.body else { return };
+    let mut args: Vec<Expr> = Vec::new();
+    for k in 0..sig.params {
+        match (&first, k) {
+            (Some(p), 0) => {
+                let one = num(ids, 1);
+                let pv = var(ids, p);
+                args.push(infix(ids, crate::field::Op::Sub, pv, one));
+            }
+            _ => args.push(num(ids, 1)),
+        }
+    }
+    let init = Expr::Call { id: ids.next(), name: sig.name.clone(), args };
+    let mut inner = vec![Stmt::Decl {
+        id: ids.next(),
+        kind: DeclKind::Component,
+        syms: vec![DeclSym { id: ids.next(), sub_id: ids.next(), name: "zrec".into(), dims: vec![], init: Some(init) }],
+        init_op: AssignOp::Var,
+    }];
+    for inp in &sig.inputs {
+        let lhs = Expr::Var { id: ids.next(), name: "zrec".into(), access: vec![Access::Field(inp.clone())] };
+        inner.push(Stmt::Assign { id: ids.next(), lhs, op: AssignOp::Constrain, rhs: num(ids, 1), reversed: false });
+    }
+    match first {
+        Some(p) => {
+            let zero = num(ids, 0);
+            let pv = var(ids, &p);
+            let cond = infix(ids, crate::field::Op::Gt, pv, zero);
+            stmts.push(Stmt::If { id: ids.next(), cond, then: Box::new(Stmt::Block { id: ids.next(), stmts: inner }), els: None });
+        }
+        None => stmts.extend(inner),
+    }
+}
+
 pub fn template_profile(t: &mut Tape) -> Profile {
     let mut p = Profile::sem(true, field::bn254());
     p.max_stmts = 4 + t.below(8);
@@ -243,6 +282,7 @@ pub fn gen_project(t: &mut Tape, o: ProjOpts) -> GenProject {
     let mut failing_templates = Vec::new();
     let mut bom_files = 0;
     let mut sugared_defs = 0;
+    let mut recursive_templates = 0;
     for i in 0..nfiles {
         let mut f = File::default();
         f.version = Some((2, [0u64, 1][t.below(2)], t.below(5) as u64));
@@ -282,6 +322,11 @@ pub fn gen_project(t: &mut Tape, o: ProjOpts) -> GenProject {
             }
             if template {
                 if let Some(sig) = template_sig(&d) {
+                    if !o.clean && t.chance(30) {
+                        // the template instantiates itself (guarded by its first parameter when it has one)
+                        add_self_instance(&mut d, &mut ids, &sig);
+                        recursive_templates += 1;
+                    }
                     templates.push(sig);
                 }
             } else {
@@ -328,7 +373,7 @@ pub fn gen_project(t: &mut Tape, o: ProjOpts) -> GenProject {
     if t.chance(60) {
         named.reverse();
     }
-    GenProject { files, named, failing_defs, failing_templates, bom_files, sugared_defs }
+    GenProject { files, named, failing_defs, failing_templates, bom_files, sugared_defs, recursive_templates }
 }
 
 impl GenProject {
